@@ -1,5 +1,7 @@
 package streams
 
+import "unsafe"
+
 // ---- C08: rely/guarantee over the real GetStream / Clear ----
 //
 // The goroutine under analysis runs the real code; every atomic operation is answered by the
@@ -60,15 +62,18 @@ func vstubCASUint64(addr *uint64, old, new uint64) bool {
 	return false
 }
 
+// address tests go through unsafe.Pointer so that the harness keeps compiling if a field's integer type changes
+func vIsOffset(p unsafe.Pointer) bool { return p == unsafe.Pointer(&vGen.offset) }
+
 func vstubLoadUint32(addr *uint32) uint32 {
-	vAssert(addr == &vGen.offset, "C08/atomic/offset-address")
+	vAssert(vIsOffset(unsafe.Pointer(addr)), "C08/atomic/offset-address")
 	v := vU32("off")
 	vAssume(v < vGen.numBuckets)
 	return v
 }
 
 func vstubCASUint32(addr *uint32, old, new uint32) bool {
-	vAssert(addr == &vGen.offset, "C08/atomic/offset-address")
+	vAssert(vIsOffset(unsafe.Pointer(addr)), "C08/atomic/offset-address")
 	vAssert(new < vGen.numBuckets, "C08/offset/stays-below-numBuckets")
 	if vBool("offcas") {
 		return true
@@ -79,6 +84,11 @@ func vstubCASUint32(addr *uint32, old, new uint32) bool {
 }
 
 func vstubAddInt32(addr *int32, d int32) int32 {
+	if vIsOffset(unsafe.Pointer(addr)) {
+		// a cursor advanced by atomic add: every goroutine adds to it, for ever - any value can come back;
+		// representatives: small, around the word count, and both ends of the integer range
+		return []int32{0, 1, 2, 511, 512, 2147483647, -2147483648, -1}[vChoose("cursor_after", 8)]
+	}
 	vAssert(addr == &vGen.inuseStreams, "C08/atomic/counter-address")
 	vAdds = append(vAdds, d)
 	r := vI32("inuse_after")
@@ -100,7 +110,10 @@ func vNewGen() {
 	} else {
 		st := make([]uint64, b)
 		st[0] = 1 << 63
-		vGen = &IDGenerator{NumStreams: b * 64, streams: st, numBuckets: uint32(b), offset: uint32(b) - 1}
+		vGen = &IDGenerator{NumStreams: b * 64, streams: st, numBuckets: uint32(b)}
+		for i := 1; i < b; i++ {
+			vGen.offset++ // = numBuckets-1, written so that it does not depend on the field's integer type
+		}
 	}
 	vMine = make([]uint64, len(vGen.streams))
 	vCasOK, vAdds = nil, nil
@@ -211,7 +224,7 @@ func vh_new() {
 		clean = clean && g.streams[i] == 0
 	}
 	vAssert(clean, "C08/new/only-id-0-is-reserved")
-	vAssert(g.offset < g.numBuckets, "C08/new/offset-in-range")
+	vAssert(int64(g.offset) >= 0 && int64(g.offset) < int64(g.numBuckets), "C08/new/offset-in-range")
 	vObserve("n", g.NumStreams)
 }
 
@@ -282,6 +295,6 @@ func vh_getstream_wide() {
 var vWideOffset uint32
 
 func vstubLoadUint32Wide(addr *uint32) uint32 {
-	vAssert(addr == &vGen.offset, "C08/atomic/offset-address")
+	vAssert(vIsOffset(unsafe.Pointer(addr)), "C08/atomic/offset-address")
 	return vWideOffset
 }
